@@ -138,9 +138,9 @@ class Ctx:
         m = re.search(r"Invariant (\S+) is violated", out)
         if m:
             r["inv"] = m.group(1)
-        m2 = re.search(r"Action property (\S+) is violated|Temporal properties were violated", out)
+        m2 = re.search(r"Action property (\S+) is violated|Temporal propert(?:y|ies) (\S+ )?w(?:as|ere) violated", out)
         if m2 and not r["inv"]:
-            r["inv"] = m2.group(1) or "temporal"
+            r["inv"] = (m2.group(1) or m2.group(2) or "temporal").strip()
         if "Deadlock reached" in out and not r["inv"]:
             r["inv"] = "Deadlock"
         r["ok"] = (p.returncode == 0 and "No error has been found" in out) or \
@@ -292,17 +292,22 @@ class Ctx:
                 seen_known[hit["key"]] = (hit, seen_known[hit["key"]][1] + 1)
             else:
                 unknown.append(v)
-        for key, (k, n) in seen_known.items():
-            print("KNOWN-FINDING: property=%s %s (observed %d time(s) this run; key=%s)" % (self.pid, k["what"], n, key))
+        for k in known:
+            n = seen_known.get(k["key"], (k, 0))[1]
+            print("KNOWN-FINDING: property=%s %s (%s; key=%s)" % (self.pid, k["what"],
+                  "observed %d time(s) this run" % n if n else "listed; not observed in this run", k["key"]))
         rc = 0
         if unknown:
             os.makedirs(os.path.join(VERIF, "replays"), exist_ok=True)
             rp = os.path.join(VERIF, "replays", "%s_%s_%d.json" % (self.pid, self.tier, self.seed))
-            json.dump({"property": self.pid, "seed": self.seed, "tier": self.tier, "violations": unknown[:50]},
-                      open(rp, "w"), indent=1, default=str)
             kinds = {}
             for v in unknown:
-                kinds.setdefault(v["key"], v)
+                if v["key"] in kinds:
+                    kinds[v["key"]]["occurrences"] = kinds[v["key"]].get("occurrences", 1) + 1
+                else:
+                    kinds[v["key"]] = dict(v)
+            json.dump({"property": self.pid, "seed": self.seed, "tier": self.tier, "violations": list(kinds.values())[:100]},
+                      open(rp, "w"), indent=1, default=str)
             for key, v in list(kinds.items())[:20]:
                 print("  violation key=%s: %s" % (key, v["what"]))
             print("VIOLATION property=%s replay=%s" % (self.pid, rp))
